@@ -88,7 +88,7 @@ theorem Post.noPending_of_stopped {K : SCtx} {k : Ctx} {sub : Bool} {le q : Prop
     NoPending s' := by
   rcases h1 with h1 | h1 <;> subst h1
   · exact h.2.2.2.1
-  · exact h.2.2.2.2.2.2.2.2
+  · exact h.2.2.2.2.2.2.2.2.1
 
 theorem sim_body (n : Nat) (hS : SimS n) (z w : Prop) :
     ∀ (b : Prog) (K : SCtx) (k : Ctx) (sub : Bool) (s : St),
